@@ -12,7 +12,8 @@ EXPLANATION = (
     "(R6) the calendar queue's insertion guard compares against the field fetch_next sets to the emitted event's time (not the coarser bucket-window start). "
     '(R7) Runtime::add_event_in schedules at the current simulation clock + the given duration (SimTime::now at the call, no other base time). '
     "(R8/R9, shared with C01.R8/R5) the calendar's index grid and scan window are in full resolution, the window is stepped and the bound follows the popped event. "
-    '(R8 also, shared with C01.R2: one bucket-index expression; R10, shared with C03.R2: the same-instant FIFO holds exactly the events with time == bound.) '
+    '(R11) `SimTime + Duration` (what add_event_in / schedule_in compute the timestamp with) stays in integer nanoseconds: no float conversion, coarser read-out or detour through the f64 impl. '
+    '(R8 also, shared with C01.R2: one bucket-index expression, in which only values bounded by the narrower type — a remainder by a value of that width, or the quotient (x % n*t)/t < n with n*t as stored by new — are narrowed; R10, shared with C03.R2: the same-instant FIFO holds exactly the events with time == bound.) '
     '(R7 also: the event set hands an event out with exactly the instant it was stored under - no coarser read-out, numeric cast or float detour between the container and the returned pair.) '
     "Decides these necessary conditions only; monotonicity over a run additionally needs the event set's order (C01, not decided).")
 ASSUMPTIONS = ["atomic stores/loads behave as documented; the clock static is only reachable through its def path"]
@@ -396,7 +397,43 @@ def r7_relative_scheduling(ctx, cfg='A', rule='C02.R7'):
             ctx.check(not bad, 'event-set-time-handed-out', 'the event set hands an event out with exactly the instant it was stored under', h.where(), bad[:3])
 
 
+def r11_exact_instant_arithmetic(ctx):
+    """`now + delay` is exact: the operator impls that add a `Duration` to a `SimTime` (`Add<Duration>`, `AddAssign<Duration>`, what
+    `Runtime::add_event_in` and every `schedule_in` go through) and `SimTime::checked_add` stay in integer nanoseconds — no read-out
+    coarser than the stored value, no float conversion, no detour through the `f64` sibling impl.  An f64 has 53 bits: beyond ~104 days
+    a rounded sum lies a few ns before or after the exact instant, so an event lands before `now` (add_event panics) or the clock shows
+    a time the event was not scheduled for."""
+    ctx.set_rule('C02.R11')
+    P = ctx.P
+    from .C01 import LOSSY_TIME
+    FLOATY = set(LOSSY_TIME) | {'from_secs_f64', 'from_secs_f32', 'try_from_secs_f64', 'try_from_secs_f32'}
+    exact = [f for f in P.fn_list if f.kind != 'promoted' and 'for des::time::SimTime>' in f.path and '<std::time::Duration>' in f.path
+             and any(t in f.path for t in ('ops::Add<', 'ops::AddAssign<'))]
+    if not ctx.floor('impls adding a Duration to a SimTime', len(exact), 2):
+        return
+    for k in ('des::time::SimTime::checked_add',):
+        if k in P.fns:
+            exact.append(P.fns[k])
+    for f in exact:
+        ctx.touch(f)
+        bad = []
+        for s_ in f.calls():
+            last = s_.name.split('::')[-1]
+            if last in FLOATY:
+                bad.append(s_.name)
+            elif any(t in ('f64', 'f32') for t in (s_.targs or [])) or any(t in ('f64', 'f32') for t in (s_.argtys or [])):
+                bad.append('%s with a float operand' % s_.name)
+        for b in sorted(f.reachable()):
+            for st in f.stmts(b):
+                if st['k'] == 'assign' and st['r'].get('k') == 'cast' and str(st['r'].get('ck', st['r'].get('kind', ''))) in ('IntToFloat', 'FloatToInt', 'FloatToFloat'):
+                    bad.append('float cast')
+        ctx.check(not bad, 'exact-instant-arithmetic:%s' % f.path.split('impl ')[-1].split(' for ')[0].replace('std::ops::', '').replace('std::time::', ''),
+                  'adding a Duration to a SimTime stays in integer nanoseconds (no float conversion or coarser read-out: a rounded `now + delay` '
+                  'lies before now or beside the scheduled instant at large times)', f.where(), bad[:3])
+
+
 def run(ctx):
+    r11_exact_instant_arithmetic(ctx)
     # (R8) events are handled in timestamp order only if the calendar's index grid and scan window agree: both in full resolution
     # (shared with C01.R8)
     from .C01 import r8_time_grid
